@@ -128,6 +128,8 @@ func (_this *Context) BeginArrayAnyType(arrayType events.ArrayType) {
 		_this.beginArray(arrayType, &stringRule, dataType, _this.config.Rules.MaxArraySizeBytes, _this.ValidateContentsString)
 	case events.ArrayTypeResourceID:
 		_this.beginArray(arrayType, &stringRule, dataType, _this.config.Rules.MaxArraySizeBytes, _this.ValidateContentsRID)
+	case events.ArrayTypeReferenceRemote:
+		_this.beginArray(arrayType, &stringRule, dataType, _this.config.Rules.MaxArraySizeBytes, _this.ValidateContentsRID)
 	case events.ArrayTypeCustomText:
 		_this.beginArray(arrayType, &stringRule, dataType, _this.config.Rules.MaxArraySizeBytes, _this.ValidateContentsCustomText)
 	default:
@@ -259,6 +261,9 @@ func (_this *Context) ValidateFullArrayAnyType(arrayType events.ArrayType, eleme
 	case events.ArrayTypeResourceID:
 		_this.ValidateLengthRID(uint64(len(data)))
 		_this.ValidateContentsRID(data)
+	case events.ArrayTypeReferenceRemote:
+		_this.ValidateLengthRID(uint64(len(data)))
+		_this.ValidateContentsRID(data)
 	case events.ArrayTypeCustomText:
 		_this.ValidateLengthAnyType(uint64(len(data)))
 		_this.ValidateContentsString(data)
@@ -274,6 +279,9 @@ func (_this *Context) ValidateFullArrayStringlike(arrayType events.ArrayType, da
 		_this.ValidateLengthString(uint64(len(data)))
 		_this.ValidateContentsStringlike(data)
 	case events.ArrayTypeResourceID:
+		_this.ValidateLengthRID(uint64(len(data)))
+		_this.ValidateContentsRIDString(data)
+	case events.ArrayTypeReferenceRemote:
 		_this.ValidateLengthRID(uint64(len(data)))
 		_this.ValidateContentsRIDString(data)
 	case events.ArrayTypeCustomText:
